@@ -311,6 +311,40 @@ class C01(Check):
                     acc.case(nontrivial=True, transitions=3)
                     if got != exp:
                         acc.violation('record-decoded-differently-through-container:' + label, {'kind': 'container-tagprefix', 'j': j, 'label': label}, {'got': repr(got)[:200]})
+            # the stackshot is arbitrary binary data: it holds the thread-map tag / an events tag (followed by a small, a medium, a huge
+            # word) IN FRONT of its end marker, or the events tag between the marker and the thread map
+            for word in (0, 8, 72, 200, 2 ** 40):
+                for label, kw in (('v3-stackshot-holds-threadmap-tag', dict(filler1=b'ab' + B.TAG_THREADMAP + word.to_bytes(8, 'little') + b'cd' * 20)),
+                                  ('v3-stackshot-holds-events-tag', dict(filler1=b'ab' + B.TAG_EVENTS + word.to_bytes(8, 'little') + b'cd' * 20)),
+                                  ('v3-stackshot-holds-more-events-tag', dict(filler1=b'ab' + B.TAG_MORE_EVENTS + word.to_bytes(8, 'little') + b'cd' * 20))):
+                    try:
+                        got = events(B.v3([(1, 2, 'a')], [recs[:1], recs[1:]], **kw))
+                    except Exception as ex:
+                        got = repr(ex)
+                    acc.case(nontrivial=True, transitions=3)
+                    if got != exp:
+                        acc.violation('record-decoded-differently-through-container:' + label, {'kind': 'container-stackshot-tags', 'word': word, 'label': label}, {'got': repr(got)[:200]})
+            # a version-3 dump that carries log records behind its events, listed through the facade with a thread / class / subclass
+            # filter that every record satisfies: exactly the records, decoded exactly
+            from pykdebugparser.pykdebugparser import PyKdebugParser
+            logs = [B.v3_block(B.TAG_LOG_STRINGS, B.bplist({'StringIndex': {'hello': 1, 'proc': 2}})),
+                    B.v3_block(B.TAG_LOG_EVENTS, B.bplist({'Events': [{'cm': 1, 't': 'logEvent', 's': 1, 'tid': 1, 'ns': 5, 'mct': 6, 'b': b'B' * 16, 'piu': b'P' * 16,
+                                                                      'ud': {'sec': 1600000000, 'usec': 7}, 'utz': {'mw': 0, 'dt': 0}, 'p': 2, 'pid': 10}]}))]
+            same = [B.rec(5 + i, (i, 2, 3, 4), 77, 0x040c0004 | (i & 3)) for i in range(3)]
+            exp_same = [ref_decode(r) for r in same]
+            for label, setting in (('no-filter', {}), ('filter_tid', {'filter_tid': 77}), ('filter_class', {'filter_class': [4]}), ('filter_subclass', {'filter_subclass': [0x040c]}),
+                                   ('filter_tid+class', {'filter_tid': 77, 'filter_class': [4]})):
+                f = PyKdebugParser()
+                for k, v in setting.items():
+                    setattr(f, k, v)
+                try:
+                    got = [(e.timestamp, e.data, tuple(e.values), e.tid, e.debugid, e.eventid, e.func_qualifier)
+                           for e in f.kevents(io.BytesIO(B.v3([(77, 2, 'a')], [same[:1], same[1:]], logs)))]
+                except Exception as ex:
+                    got = repr(ex)
+                acc.case(nontrivial=True, transitions=4)
+                if got != exp_same:
+                    acc.violation('record-decoded-differently-through-container:v3-with-log-records+' + label, {'kind': 'container-logs-filter', 'label': label}, {'got': repr(got)[:200]})
             # a dump cut in the middle of a record (parsing it raises), then a complete dump, in the same process
             for cut in (1, 20, 63, 64 + 31):
                 whole = B.v2([], 0, [P[0], P[1], P[2]])
